@@ -142,6 +142,20 @@ func c13Paths(root string, c *c13Case) (in, dest, link string) {
 // c13Exec sets the directory up and executes the output phase once under the
 // given disk plan.
 func c13Exec(root string, c *c13Case, plan core.FSPlan) *c13Outcome {
+	return c13ExecOn(root, c, plan, false)
+}
+
+// c13ExecOn with keep=true executes the output phase on the directory as an
+// earlier (killed) execution left it: the next run of the same command.
+func c13ExecOn(root string, c *c13Case, plan core.FSPlan, keep bool) *c13Outcome {
+	in, dest, link := c13Paths(root, c)
+	if !keep {
+		c13Setup(root, c)
+	}
+	return c13ExecIn(root, c, plan, in, dest, link)
+}
+
+func c13Setup(root string, c *c13Case) {
 	core.ResetDir(root)
 	in, dest, link := c13Paths(root, c)
 	must(os.WriteFile(in, c.In, 0o644))
@@ -164,6 +178,9 @@ func c13Exec(root string, c *c13Case, plan core.FSPlan) *c13Outcome {
 	if c.HardLink {
 		must(os.Link(in, link))
 	}
+}
+
+func c13ExecIn(root string, c *c13Case, plan core.FSPlan, in, dest, link string) *c13Outcome {
 	fs := core.NewFS(root)
 	fs.Plan = plan
 	out := &c13Outcome{fs: fs, exit: -1}
@@ -613,6 +630,23 @@ func c13Run(r *core.Run) {
 			}
 			if c.HardLink && !bytes.Equal(out.link, c.In) {
 				r.Failf("C13.crash.link-modified", key, "%s: killed after op %s (%s): the other hard link to the input no longer holds the original bytes", label, o.String(), v)
+			}
+			// 2b. the next run of the command, on the directory as the killed one
+			// left it (whatever scratch file it left behind), with a shorter
+			// output: if it reports success the destination holds exactly that
+			// output - the complete new content of *this* run
+			if (c.Strategy == "whole" || c.Strategy == "writefile") && c.RespBreak == 0 && len(c.Result) >= 2 && c.DestMode != "same" && c.DestMode != "link-of-input" && c.DestMode != "symlink-to-input" {
+				c2 := *c
+				c2.Result = append([]byte(nil), c.Result[:len(c.Result)/2]...)
+				out2 := c13ExecOn(root, &c2, core.FSPlan{}, true)
+				r.Evals++
+				r.Probe("rerun-after-kill")
+				r.Sig(fmt.Sprintf("rerun/%s/%s/%s", label, at, v))
+				if out2.hung || out2.panicked != nil {
+					r.Failf("C13.rerun.hang-or-panic", key, "%s: killed after op %s (%s), then run again: the output phase hangs or panics (%v)", label, o.String(), v, out2.panicked)
+				} else if out2.ok && (!out2.destOK || !bytes.Equal(out2.dest, c2.Result)) {
+					r.Failf("C13.rerun.dest-wrong", key, "%s: killed after op %s (%s), then run again with a %d-byte output: success reported but the destination holds %d bytes that are not that output (left behind by the killed run: %v)", label, o.String(), v, len(c2.Result), len(out2.dest), out.temps)
+				}
 			}
 		}
 	}
